@@ -73,6 +73,19 @@ Proof.
 Qed.
 Print Assumptions C04_header_limit.
 
+(* max_header_size left unset (None) or 0 -- what HTTPServer passes by default: the effective
+   limit is 65536 (`max_header_size or 65536`), and it is enforced: a header block whose
+   terminator ends beyond 65536 bytes, or more than 65536 bytes without a terminator, closes
+   the connection with nothing delivered. *)
+Theorem C04_unset_header_limit_is_65536 :
+  forall (i : input) b e,
+    mh_of i = None \/ mh_of i = Some 0%nat ->
+    max_header (cfg_of i) = N.to_nat 65536 /\
+    (find_term b = Some e -> (N.to_nat 65536 < e)%nat -> strict_reader (cfg_of i) b = [EvClosed]) /\
+    (find_term b = None -> (N.to_nat 65536 < length b)%nat -> strict_reader (cfg_of i) b = [EvClosed]).
+Proof. exact unset_header_limit_enforced. Qed.
+Print Assumptions C04_unset_header_limit_is_65536.
+
 (* A declared Content-Length above the (possibly overridden) limit: 400, and no body byte
    reaches the application. *)
 Theorem C04_content_length_over_limit :
